@@ -90,3 +90,15 @@ def siblings_changed(proj_dir, amb):
 
 def label(amb):
     return amb["kind"]
+
+
+def from_json(d):
+    """Rebuild an ambient state from its JSON form in a replay bundle."""
+    if not d:
+        return None
+    amb = {"kind": d.get("kind", "plain"), "modes": {k: int(v) for k, v in (d.get("modes") or {}).items()},
+           "stale_lock_tmp": d.get("stale_lock_tmp"), "mtimes": {k: int(v) for k, v in (d.get("mtimes") or {}).items()},
+           "lock_mtime": d.get("lock_mtime"), "siblings": {}}
+    for k, v in (d.get("siblings") or {}).items():
+        amb["siblings"][k] = bytes.fromhex(v["hex"]) if isinstance(v, dict) else v.encode("utf-8")
+    return amb
